@@ -947,7 +947,9 @@ class NFA(fa.FA):
             )
         )
 
-        new_transitions: Dict[NFAStateT, Dict[str, Set[NFAStateT]]] = {}
+        new_transitions: Dict[NFAStateT, Dict[str, Set[NFAStateT]]] = {
+            new_initial_state: {}
+        }
 
         # Start reading the prefix
         for q_a, q_b in product(self_reachable_states, other_reachable_states):
